@@ -119,16 +119,42 @@ def cut_points(prog, rep, ctx):
     # the overlap test that routes list-two events into the trimming branches must mean POSITIVE overlap:
     # under "touching counts as overlap" an uncovered list-two event that starts where e1 ends is split at its own
     # start, _split_event returns (e2, None) and the event is skipped without being emitted
-    tops = [st for st in lp.body if isinstance(st, ast.If)]
-    if tops:
-        t = tops[0].test
-        tt = norm(t)
-        if isinstance(t, ast.Call) and isinstance(t.func, ast.Attribute) and t.func.attr in ("intersects", "overlaps") and len(t.args) == 1:
-            rep.ok("CUT", fi.short, "overlap test", f"{tt} (positive overlap)", fi.loc(tops[0]))
-        elif "gap(" in tt or "adjacent(" in tt or "contains(" in tt:
-            rep.violation("CUT", fi.short, "overlap test", f"list-two events are routed into the trimming branches by `{tt}`, which also holds for events that merely touch the list-one event: an uncovered list-two event starting exactly where the list-one event ends is cut at its own start, nothing is kept and it is dropped (covered time is lost)", fi.loc(tops[0]), expected="e1_p.intersects(e2_p)", found=tt)
+    from ..cfg import cfg_of
+    from ..sqlmodel import single_def
+
+    g = cfg_of(fi)
+
+    def overlap_fact(lab):
+        """'overlap' / 'touch' with polarity, for an edge whose test is (a name bound to) a Timeslot relation"""
+        if not lab or lab[0] != "cond":
+            return None
+        t = lab[1]
+        if isinstance(t, ast.Name):
+            d = single_def(fi, t.id)
+            if d is not None:
+                t = d
+        if isinstance(t, ast.Call) and isinstance(t.func, ast.Attribute) and len(t.args) == 1:
+            if t.func.attr in ("intersects", "overlaps"):
+                return ("overlap", lab[2], norm(t))
+            if t.func.attr in ("gap", "adjacent", "contains", "intersection"):
+                return ("touch", lab[2], norm(t))
+        for c in ast.walk(t):
+            if isinstance(c, ast.Call) and isinstance(c.func, ast.Attribute) and c.func.attr in ("gap", "adjacent", "contains", "intersection"):
+                return ("touch", lab[2], norm(t))
+        return None
+
+    split_calls = [c for c in ast.walk(lp) if isinstance(c, ast.Call) and norm(c.func) == "_split_event"]
+    if lp.body and split_calls:
+        entry = g.node_of(lp.body[0])
+        reach = g.reach_filtered(entry, lambda u, v, lab: not ((overlap_fact(lab) or (None, None))[0] == "overlap" and overlap_fact(lab)[1] is True))
+        loose = [c for c in split_calls if g.node_of(c) in reach]
+        touch = sorted({overlap_fact(lab)[2] for n in g.nodes for v, lab in g.succ[n.id] if overlap_fact(lab) and overlap_fact(lab)[0] == "touch"})
+        if not loose:
+            rep.ok("CUT", fi.short, "overlap test", "every trimming site lies on a path that established positive overlap (intersects)", fi.loc(lp))
+        elif touch:
+            rep.violation("CUT", fi.short, "overlap test", f"list-two events are routed into the trimming branches by `{touch[0]}`, which also holds for events that merely touch the list-one event: an uncovered list-two event starting exactly where the list-one event ends is cut at its own start, nothing is kept and it is dropped (covered time is lost)", fi.loc(loose[0]), expected="e1_p.intersects(e2_p)", found=touch[0])
         else:
-            rep.undecided("CUT", fi.short, "overlap test", f"unrecognised overlap test `{tt}`", fi.loc(tops[0]))
+            rep.undecided("CUT", fi.short, "overlap test", f"the trimming site at line {loose[0].lineno} is reachable without an intersects() test", fi.loc(loose[0]))
     calls = [c for c in ast.walk(lp) if isinstance(c, ast.Call) and norm(c.func) == "_split_event"]
     if len(calls) != 2:
         rep.violation("CUT", fi.short, "_split_event call sites", f"{len(calls)} call sites (2 expected)", fi.loc(lp))
